@@ -25,7 +25,12 @@ floats, lon and lat being one array object or overlapping views of one array (th
 rotation per sampler) must give TLC's value at every point in the request's own shape.  The battery's own request points are
 read-only (ordinary calls get writeable copies), and every answer returned during a battery is held and compared with TLC's
 table AGAIN after the battery's last call (key ...:held-answer: answers belong to the caller).  A sampler that writes into
-a writeable request array without giving a wrong answer is reported as drift.  "sky" tables are also pushed through plate_carree_galactic_sampler (same battery) at the
+a writeable request array without giving a wrong answer is reported as drift.  The map is the caller's array too: the same
+pixel values as >f4, <f4, >f8, >i2, >u2, >i4, <i8, u1, as astropy.io.fits hands an image out, Fortran-ordered, strided,
+read-only, RGB >i4 (two of these per sampler and table, in rotation; key ...:map-presentation).  Edge-family tables are
+also replayed with every point moved to within 1e-6 .. 1e-12 rad of its cell edge / centre / pole / seam (TLC's value for
+the odd unit stands because a cell is an interval; below 1e-9 rad either neighbour), and the Galactic sampler is asked at
+and within 0 .. 1e-6 rad of both Galactic poles, where the value must be one of TLC's values of the top / bottom row.  "sky" tables are also pushed through plate_carree_galactic_sampler (same battery) at the
 ICRS coordinates whose Galactic image (astropy, trusted) are the table's angles.
 """
 import json
@@ -46,6 +51,10 @@ REQUEST_LAYOUTS = ["lon and lat the same array object", "Fortran-ordered arrays"
                    "views with negative strides", "1-d request", "non-contiguous column slices", "read-only arrays",
                    "lon C-ordered, lat a transposed view", "lon and lat overlapping views of one array", "3-d request", "broadcast views (zero strides)", "0-d request", "Python floats"]
 LAYOUTS_PER_BATTERY = 3
+# how the caller may hand over one and the same map
+MAP_FORMS = [">f4", "fits", "<f4", ">f8", ">i2", "Fortran-ordered", ">u2", ">i4", "strided view", "u1", "read-only", "RGB >i4", "<i8"]
+MAPS_PER_BATTERY = 2
+map_counter = {}
 layout_counter = {}          # per sampler name: every sampler meets every presentation in turn
 
 CFG = """SPECIFICATION Spec
@@ -347,16 +356,113 @@ def replay_table(ctx, rec, S, gal_tools):
             buf_lat[...] = LATb
             judge_out(name, "scalar", lambda: f_scalar(buf_lon, buf_lat), buf_lon, buf_lat, wantb, (), dec_scalar, "history",
                       h % "the same request arrays, modified in place since the previous call")
+        # ---- the MAP is the caller's array too: the same pixel values in the dtypes and byte orders that FITS readers and
+        # client code hand over, in non-contiguous and read-only arrays.  The sampled values must be TLC's (as numbers).
+        for _ in range(MAPS_PER_BATTERY):
+            which = map_counter.get(name, 0) % len(MAP_FORMS)
+            map_counter[name] = map_counter.get(name, 0) + 1
+            form = MAP_FORMS[which]
+            m = None
+            if form == "fits":
+                from astropy.io import fits
+                import io as _io
+                bio = _io.BytesIO()
+                fits.PrimaryHDU(scalar_map.astype(np.float32)).writeto(bio)
+                bio.seek(0)
+                with fits.open(bio, memmap=False) as hdul:
+                    m = hdul[0].data                      # big-endian float32, as astropy.io.fits hands it out
+            elif form == "u1":
+                if nx * ny <= 255:
+                    m = scalar_map.astype("u1")
+            elif form == "Fortran-ordered":
+                m = np.asfortranarray(scalar_map.astype(np.float64))
+            elif form == "strided view":
+                bigm = np.full((2 * ny + 1, 3 * nx), -7, dtype=np.int32)
+                bigm[1::2, 1::3] = scalar_map
+                m = bigm[1::2, 1::3]
+            elif form == "read-only":
+                m = scalar_map.astype(np.float32)
+                m.setflags(write=False)
+            elif form == "RGB >i4":
+                m = rgb_map.astype(">i4")
+            else:
+                m = scalar_map.astype(form)
+            if m is None:
+                continue
+            keep = np.array(m, copy=True)
+            a, b = LONr.copy(), LATr.copy()
+            if m.ndim == 3:
+                judge_out(name, "RGB", lambda: make(m)(a, b), a, b, want, (3,), dec_rgb, "map-presentation", " [map given as %s]" % form)
+            else:
+                judge_out(name, "scalar", lambda: make(m)(a, b), a, b, want, (), dec_scalar, "map-presentation",
+                          " [map given as %s, dtype %s]" % (form, m.dtype.str))
+            if not np.array_equal(np.asarray(m), keep):
+                ctx.drift("%s modified the caller's map array (%dx%d, given as %s)" % (name, ny, nx, form))
         recheck_held()
+
+    def near_lattice(name, make, to_request, skip_pole_rows, eps_list):
+        """edge family: the table's odd units sit 1/(4g) of a cell from an even unit (a cell edge, a cell centre, a pole, the
+        seam).  Move every point towards its even unit until it is only eps away from it: between the two TLC units the cell
+        cannot change (a cell is an interval), so TLC's value for the odd unit stands; below 1e-9 rad either neighbour of an
+        edge is admitted.  eps runs down to 1e-12 rad: poles and seam are approached from inside, both hemispheres."""
+        half = 2 * g
+        period, pole = 4 * nx * g, 2 * ny * g
+        ulon, ulat = 2.0 * math.pi / period, math.pi / (2.0 * pole)
+        kk = [int(k) for k in ks]
+        jj = [int(j) for j in js]
+        bsel = [b for b, k in enumerate(kk) if abs(k) * ulon <= 3 * math.pi + 1e-9]
+        asel = [a for a, j in enumerate(jj) if abs(j) != pole]
+        if skip_pole_rows:
+            asel = [a for a in asel if abs(jj[a]) + 1 != pole]
+        if not bsel or not asel:
+            return
+        kpos = {k: b for b, k in enumerate(kk)}
+        jpos = {j: a for a, j in enumerate(jj)}
+        dk = [1 if (kk[b] - 1) % half == 0 else -1 for b in bsel]
+        dj = [1 if (jj[a] - 1) % half == 0 else -1 for a in asel]
+        b2 = [kpos.get(kk[b] - 2 * d, b) for b, d in zip(bsel, dk)]
+        a2 = [jpos.get(jj[a] - 2 * d, a) for a, d in zip(asel, dj)]
+        strict = cand[np.ix_(asel, bsel)]
+        relaxed = np.concatenate([cand[np.ix_(asel, bsel)], cand[np.ix_(a2, bsel)], cand[np.ix_(asel, b2)], cand[np.ix_(a2, b2)]], axis=-1)
+        for eps in eps_list:
+            if eps >= 0.5 * min(ulon, ulat):
+                continue
+            lon_n = np.array([(kk[b] - d) * ulon + d * eps for b, d in zip(bsel, dk)])
+            lat_n = np.clip(np.array([(jj[a] - d) * ulat + d * eps for a, d in zip(asel, dj)]), -math.pi / 2, math.pi / 2)
+            LONn, LATn = np.meshgrid(lon_n, lat_n)
+            ra, de = to_request(LONn, LATn)
+            judge_out(name, "scalar", lambda: make(scalar_map)(ra, de), ra, de, strict if eps >= 1e-9 else relaxed, (), dec_scalar,
+                      "cell", " [points %g rad from a cell edge / cell centre / pole / seam]" % eps)
 
     name = SAMPLER_OF[v]
     requests = grid_renderings(rec) if grid else [(lon, lat)]
     for lon_r, lat_r in requests:
         LONr, LATr = np.meshgrid(lon_r, lat_r)
         battery(name, getattr(S, name), LONr, LATr, cand)
+    if rec["mode"] == "edge":
+        near_lattice(name, getattr(S, name), lambda a, b: (a, b), False, [1e-6, 1e-8, 1e-10, 1e-12])
     if v == "sky":
         # Galactic map: the table's angles are Galactic (l, b); ask the sampler at their ICRS pre-images.
         SkyCoord, Galactic, u = gal_tools
+
+        def to_icrs(l_a, b_a):
+            c = SkyCoord(l=l_a * u.rad, b=b_a * u.rad, frame=Galactic).icrs
+            return c.ra.rad, c.dec.rad
+        if rec["mode"] == "edge":
+            near_lattice("plate_carree_galactic_sampler", S.plate_carree_galactic_sampler, to_icrs, True, [1e-6, 1e-8])
+        # the poles of the Galactic frame, both hemispheres, approached down to 1e-12 rad and hit exactly: the Galactic longitude
+        # is ill-conditioned there, the ROW is not - the value must be one of TLC's values for the top / bottom row
+        pole_rows = {1: int(np.argmax(js)), -1: int(np.argmin(js))}
+        eps_p = np.array([0.0, 1e-12, 1e-11, 1e-10, 1e-9, 3e-9, 1e-8, 3e-8, 1e-7, 1e-6])
+        l_p = (np.arange(96) + 0.37) * (2 * math.pi / 96)
+        Lp, Ep = np.meshgrid(l_p, eps_p)
+        for sgn in (1, -1):
+            rowvals = sorted(set(int(x) for x in cand[pole_rows[sgn]].reshape(-1)))
+            wantp = np.broadcast_to(np.array(rowvals, dtype=np.int64), Lp.shape + (len(rowvals),))
+            ra, de = to_icrs(Lp, sgn * (math.pi / 2 - Ep))
+            judge_out("plate_carree_galactic_sampler", "scalar", lambda: S.plate_carree_galactic_sampler(scalar_map)(ra, de), ra, de, wantp, (),
+                      dec_scalar, "cell", " [points 0 .. 1e-6 rad from the %s Galactic pole: any pixel of the %s row]"
+                      % ("north" if sgn > 0 else "south", "top" if sgn > 0 else "bottom"))
         inner_rows = np.abs(js) != 2 * ny * g               # at a pole the longitude is undefined
         if inner_rows.any():
             l_a, b_a = LON[inner_rows], LAT[inner_rows]
@@ -372,6 +478,7 @@ def replay_table(ctx, rec, S, gal_tools):
 def run(ctx):
     repo.setup(ctx)
     layout_counter.clear()
+    map_counter.clear()
     import numpy as np  # noqa
     from toasty import samplers as S
     from astropy.coordinates import SkyCoord, Galactic
